@@ -344,19 +344,46 @@ impl Check for DrawdownScan {
         {
             use crate::props::world::{self, InstrumentDef, KindDef, UnitDef};
             use barter_instrument::asset::AssetIndex;
+            // two venues whose order in the index (declaration order of the exchange ids: Mock first)
+            // is not the alphabetical order of their instrument / asset names
             let defs = vec![
                 InstrumentDef { exchange: 0, base: 0, quote: 2, kind: KindDef::Spot, unit: UnitDef::NoSpec },
-                InstrumentDef { exchange: 2, base: 1, quote: 3, kind: KindDef::Spot, unit: UnitDef::NoSpec },
+                InstrumentDef { exchange: 1, base: 1, quote: 3, kind: KindDef::Spot, unit: UnitDef::NoSpec },
             ];
             let indexed = world::index(&defs);
             let state = world::engine_state(&indexed, barter::engine::state::trading::TradingState::Disabled);
             let mut summary = barter::statistic::summary::TradingSummaryGenerator::init(Decimal::ZERO, ts(T0_MS), ts(T0_MS), &state.instruments, &state.assets);
             let a = AssetIndex(0);
             let b = AssetIndex(indexed.assets().len() - 1);
+            let a_key = {
+                let x = &indexed.assets()[0].value;
+                barter_instrument::asset::ExchangeAsset::new(x.exchange, x.asset.name_internal.clone())
+            };
+            let i0 = barter_instrument::instrument::InstrumentIndex(0);
+            let i1 = barter_instrument::instrument::InstrumentIndex(1);
+            let i0_name = indexed.instruments()[0].value.name_internal.clone();
             let bal = |v: Decimal| Balance::new(v, v);
             let mut scan = Scan::new(pts[0].0, pts[0].1);
+            let mut prev = Decimal::ZERO;
+            let exit = |instrument, pnl: Decimal, t: i64, n: usize| PositionExited::<QuoteAsset, barter_instrument::instrument::InstrumentIndex> {
+                instrument,
+                side: Side::Buy,
+                price_entry_average: Decimal::from(100),
+                quantity_abs_max: Decimal::ONE,
+                pnl_realised: pnl,
+                fees_enter: AssetFees::quote_fees(Decimal::ZERO),
+                fees_exit: AssetFees::quote_fees(Decimal::ZERO),
+                time_enter: ts(t - 1),
+                time_exit: ts(t),
+                trades: vec![TradeId::new(format!("s{n}"))],
+            };
             for (i, (t, v)) in pts.iter().enumerate() {
                 summary.update_from_balance(Snapshot(&AssetBalance { asset: a, balance: bal(*v), time_exchange: ts(*t) }));
+                // the same curve as the cumulative PnL of the instrument with index 0, updates keyed by
+                // index as the engine emits them; the other instrument only ever gains
+                summary.update_from_position(&exit(i0, *v - prev, *t, i));
+                summary.update_from_position(&exit(i1, Decimal::ONE, *t, i));
+                prev = *v;
                 if i > 0 {
                     scan.step(*t, *v);
                 }
@@ -364,8 +391,8 @@ impl Check for DrawdownScan {
                 summary.update_from_balance(Snapshot(&AssetBalance { asset: b, balance: bal(Decimal::from(1000 + i as u32)), time_exchange: ts(*t + 5_000) }));
             }
             let sheets = summary.generate(Daily);
-            let Some((_, sheet)) = sheets.assets.get_index(a.index()) else {
-                bad!("summary-asset-sheet:missing", "trading summary has no sheet at asset index 0");
+            let Some(sheet) = sheets.assets.get(&a_key) else {
+                bad!("summary-asset-sheet:missing", "trading summary has no sheet for {a_key:?}");
             };
             let mut all = scan.completed.clone();
             all.extend(scan.in_progress());
@@ -375,6 +402,46 @@ impl Check for DrawdownScan {
             if let Err((sig, msg)) = check_max_mean("summary-asset-sheet", &all, sheet.drawdown_max.clone().map(|m| conv(&m.0)), sheet.drawdown_mean.clone().map(|m| (m.mean_drawdown, m.mean_drawdown_ms))) {
                 bad!(sig, "asset fed through TradingSummaryGenerator::update_from_balance: {msg}");
             }
+            let Some(isheet) = sheets.instruments.get(&i0_name) else {
+                bad!("summary-instrument-sheet:missing", "trading summary has no sheet for {i0_name}");
+            };
+            if isheet.pnl != pts[pts.len() - 1].1 || isheet.pnl_drawdown.as_ref().map(conv) != scan.in_progress() {
+                bad!("summary-instrument-sheet:curve", "{i0_name} (instrument index 0 of [{}]) fed by index through TradingSummaryGenerator::update_from_position next to an instrument that only gains: sheet pnl {} / pnl_drawdown {:?}, its own curve ends at {} with {:?} in progress", indexed.instruments().iter().map(|i| i.value.name_internal.name().to_string()).collect::<Vec<_>>().join(", "), isheet.pnl, isheet.pnl_drawdown, pts[pts.len() - 1].1, scan.in_progress());
+            }
+            if let Err((sig, msg)) = check_max_mean("summary-instrument-sheet", &all, isheet.pnl_drawdown_max.clone().map(|m| conv(&m.0)), isheet.pnl_drawdown_mean.clone().map(|m| (m.mean_drawdown, m.mean_drawdown_ms))) {
+                bad!(sig, "{i0_name} fed by index through TradingSummaryGenerator::update_from_position: {msg}");
+            }
+
+            // ---- layer (f): the asset statistics kept inside the engine state -----------------------
+            // the curve arrives as account events: single balance updates and (where `locked` is odd)
+            // full account snapshots, as an execution link sends them when it (re)initialises
+            let mut state = state;
+            let ex = indexed.find_exchange_index(indexed.assets()[0].value.exchange).expect("exchange of asset 0");
+            let mut scan = Scan::new(pts[0].0, pts[0].1);
+            let mut full = 0u32;
+            for (i, (t, v)) in pts.iter().enumerate() {
+                let balance = AssetBalance { asset: a, balance: bal(*v), time_exchange: ts(*t) };
+                let kind = if case.points[i].locked % 2 == 1 {
+                    full += 1;
+                    barter_execution::AccountEventKind::Snapshot(barter_execution::AccountSnapshot { exchange: ex, balances: vec![balance], instruments: vec![] })
+                } else {
+                    barter_execution::AccountEventKind::BalanceSnapshot(Snapshot(balance))
+                };
+                let _ = state.update_from_account(&barter_execution::AccountEvent { exchange: ex, kind });
+                if i > 0 {
+                    scan.step(*t, *v);
+                }
+                let sheet = state.assets.asset_index(&a).statistics.clone().generate();
+                let mut all = scan.completed.clone();
+                all.extend(scan.in_progress());
+                if sheet.balance_end != Some(bal(*v)) || sheet.drawdown.as_ref().map(conv) != scan.in_progress() {
+                    bad!("engine-asset-statistics:curve", "balance {i} of the curve delivered to EngineState::update_from_account ({full} of them inside full account snapshots): statistics report balance_end {:?} / drawdown {:?}, the curve is at {v} with {:?} in progress (curve {pts:?})", sheet.balance_end, sheet.drawdown, scan.in_progress());
+                }
+                if let Err((sig, msg)) = check_max_mean("engine-asset-statistics", &all, sheet.drawdown_max.map(|m| conv(&m.0)), sheet.drawdown_mean.map(|m| (m.mean_drawdown, m.mean_drawdown_ms))) {
+                    bad!(sig, "balance {i} delivered to EngineState::update_from_account ({full} inside full account snapshots): {msg}");
+                }
+            }
+            rep.class_if(full > 0, "balance_delivered_inside_a_full_account_snapshot");
         }
 
         // classification from the scan
@@ -420,7 +487,7 @@ impl Check for DrawdownScan {
 }
 
 pub fn run(ctx: &mut Ctx) {
-    ctx.rule = "drawdown_scan: 1..60|150 timed points, strictly increasing times, values from a small grid (1..7 mostly, up to 200, a few <= 0 after the first) with +-0.1 perturbations so that equal consecutive values, exact recoveries to the peak and new highs by one tick are common; first value > 0. Fed to DrawdownGenerator (default and init), Max/Mean generators (updated from empty, and constructed from the first drawdown through init()), TearSheetAssetGenerator (balances; a third of them with part of the total locked, free < total) and TearSheetGenerator (cumulative PnL of closed positions with varying entry price / size), and (final sheet only) a TradingSummaryGenerator fed with two assets whose venues' clocks are 5 s apart, each compared after every point with an independent peak-to-trough scan; after 15% of the points the live generators themselves (not copies) are asked for the current drawdown / an interim tear sheet and keep being updated afterwards. non-trivial = >= 2 completed drawdowns and one in progress at the end; distinct by hash of the case.".into();
+    ctx.rule = "drawdown_scan: 1..60|150 timed points, strictly increasing times, values from a small grid (1..7 mostly, up to 200, a few <= 0 after the first) with +-0.1 perturbations so that equal consecutive values, exact recoveries to the peak and new highs by one tick are common; first value > 0. Fed to DrawdownGenerator (default and init), Max/Mean generators (updated from empty, and constructed from the first drawdown through init()), TearSheetAssetGenerator (balances; a third of them with part of the total locked, free < total) and TearSheetGenerator (cumulative PnL of closed positions with varying entry price / size), (final sheets only) a TradingSummaryGenerator over two venues whose index order is not their alphabetical order, fed by index with two assets whose venues' clocks are 5 s apart and with the curve as one instrument's cumulative PnL next to an instrument that only gains (sheets read by name), and the asset statistics inside an EngineState that receives the curve as account events (single balance updates; where `locked` is odd, full account snapshots), each compared after every point with an independent peak-to-trough scan; after 15% of the points the live generators themselves (not copies) are asked for the current drawdown / an interim tear sheet and keep being updated afterwards. non-trivial = >= 2 completed drawdowns and one in progress at the end; distinct by hash of the case.".into();
     ctx.assumptions = vec![
         "running maxima are positive (first value > 0); later values may be <= 0".into(),
         "tear-sheet generate() is called once per generator clone, as the engine API does (generate folds the in-progress drawdown into max/mean)".into(),
